@@ -103,26 +103,28 @@ theorem C07_new_room (cand : RoomNode) (room : RoomT) (h : prepareNewRoom cand =
 /-- **C07 (authored for that room and that place).** With the intended checks a candidate is accepted
     only if every entry is attached to its list by a placing reference signed by the entry's own
     author, with the list's label and the owner's entity — a reference binds (owner row, label,
-    entry), so an entry cannot be moved to another list, group or room by a third party — and the
+    entry), so an entry cannot be moved to another list, group or room by a third party —, no list carries two rows
+    with one id, and the
     room row that is written is the candidate's only when it equals the stored one or is a newer
     `sys.Room` row signed by an admin, and the stored one otherwise. -/
 theorem C07_bound_to_place (s s' : RStore) (cand : RoomNode) (h : accept Defects.none s cand = .ok s') :
-    cand.placingOk = true ∧
+    cand.placingOk = true ∧ cand.idsDistinct = true ∧
     ∀ room old merged upd, s.rooms.find? (·.id = cand.node.id) = some room → readBack false s cand.node.id = some old →
       prepareWithHistory Defects.none room old cand = some (.ok (merged, upd)) →
       (rowEq merged.node cand.node = true ∧
         (rowEq cand.node old.node = true ∨
          (old.node.mdate < cand.node.mdate ∧ cand.node.ent = 100 ∧ room.isAdmin cand.node.author cand.node.mdate = true))) ∨
       (rowEq merged.node old.node = true ∧ ¬ old.node.mdate < cand.node.mdate) := by
-  refine ⟨(accept_none_placing h).2.2, ?_⟩
+  refine ⟨(accept_none_placing h).2.2.1, (accept_none_placing h).2.2.2, ?_⟩
   intro room old merged upd _ _ hprep
   exact (prepareWithHistory_sound hprep).roomRow rfl
 
-/-- **C07_partial.** On every candidate that passes `candGuard` — today only: the placing references
-    are signed by the entries' authors with the right label and source entity — the code as written
+/-- **C07_partial.** On every candidate that passes `candGuard` — today: the placing references
+    are signed by the entries' authors with the right label and source entity, and no list carries two
+    rows with one id — the code as written
     decides exactly as the intended checks do, so sections 1 and 2 apply to it. What is missing
-    relative to the full statement is exactly the `placingEdge` witnesses of section 3 (and the order
-    of same-date entries). -/
+    relative to the full statement is exactly the `placingEdge` and `duplicateIds` witnesses of section 3
+    (and the order of same-date entries). -/
 theorem C07_partial (s : RStore) (cand : RoomNode) (g : candGuard s cand = true) :
     accept Defects.asImplemented s cand = accept Defects.none s cand :=
   accept_congr g
@@ -282,6 +284,23 @@ theorem C07_breaks_storedDefinitionTrusted :
     (loaded polluted 10).isAdmin 2 400 = false ∧
     (loaded (stateOf (accept Defects.asImplemented polluted upd)) 10).isAdmin 2 400 = true ∧
     (loaded (stateOf (accept Defects.none polluted upd)) 10).isAdmin 2 400 = true := by
+  decide
+
+/-- **two rows with one id in a list.** The candidate's admin list carries the stored admin entry
+    (row 101, signed by key 0) and, after it, a second row with the same id 101 signed by key 5:
+    "key 5 is an admin". The merge compares only the first row with id 101 with the stored entry, and a
+    row whose id is stored is never judged as a new entry: together with one honest new user entry
+    (so that the definition is written) the candidate is accepted and key 5 — an outsider — is an
+    admin of the loaded room. The intended check refuses the candidate. -/
+theorem C07_breaks_duplicateIdsUnchecked :
+    let cand := { room10 with adminNodes := room10.adminNodes ++ [row 101 102 350 5 (.user 5 true)],
+                              adminEdges := room10.adminEdges ++ [edge 10 100 32 101 350 5],
+                              authNodes := [{ g102 with userNodes := g102.userNodes ++ [row 111 102 300 0 (.user 1 true)],
+                                                         userEdges := g102.userEdges ++ [edge 102 101 34 111 300 0] }] }
+    (loaded w0 10).isAdmin 5 400 = false ∧
+    (loaded (stateOf (accept Defects.asImplemented w0 cand)) 10).isAdmin 5 400 = true ∧
+    accept { Defects.asImplemented with duplicateIdsUnchecked := false } w0 cand = .err .inconsistent ∧
+    accept Defects.none w0 cand = .err .inconsistent := by
   decide
 
 /-- **#4 the stored definition was replayed newest first — fixed in /repo f7a29ff, kept as a regression
